@@ -6,3 +6,9 @@ UNITS = [
   Unit("vf_ov_open2", ["C03", "C12", "C13"], "lib/vorbisfile.c", enforce="_ov_open2", replace=["_open_seekable2", "ov_clear"], reach=3,
        note="second stage of open: failure => handle cleared, close callback NOT run, data source detached before ov_clear"),
 ]
+UNITS += [
+  Unit("vf_halfrate", ["C20"], "lib/vorbisfile.c", enforce="ov_halfrate", rec=True, kind="B", unwind=5,
+       replace=["vorbis_dsp_clear", "vorbis_block_clear", "ov_pcm_seek", "vorbis_synthesis_halfrate"], reach=3,
+       bound="<= 3 links (link loop unwound); everything else symbolic",
+       note="ov_halfrate: all links switched or, on refusal, all links back to full rate; switching off never fails"),
+]
